@@ -75,6 +75,67 @@ def concurrent_traces(ck, quick):
             good += regs
             if k == 0:
                 ck.sample({'kind': 'validated registry log prefix', 'events': common.read_ndjson(tr)[:20]})
+    good += murex_level(ck, quick)
+    return good
+
+
+def murex_level(ck, quick):
+    """The builtins: murex programs issue `pipe n`, `!pipe n`, `out x -> <n>` on the names a, b, c of the one global
+    registry, 8 programs at a time per interpreter process; the registry's event log is validated by TLC against
+    NamedPipes.tla; a panic or the death of a process is a crash."""
+    import random
+    import re
+    import subprocess
+    mxh = common.build_mxh()
+    rng = random.Random(ck.seed)
+    shards = 4 if quick else 12
+    procs = []
+    nprog = 0
+    for s in range(shards):
+        jobs = []
+        for k in range(40):
+            ops = []
+            for _ in range(rng.randint(3, 7)):
+                n = rng.choice('abc')
+                ops.append(rng.choice(['pipe %s' % n, 'pipe %s' % n, '!pipe %s' % n, '!pipe %s' % n, 'out x%d -> <%s>' % (k, n)]))
+            jobs.append({'id': s * 1000 + k, 'src': '\n'.join(ops), 'timeout_ms': 60000})
+        nprog += len(jobs)
+        inp = os.path.join(ck.scratch, 'mnp-in%d.ndjson' % s)
+        common.write_ndjson(inp, jobs)
+        ev = os.path.join(ck.scratch, 'mnp-ev%d.ndjson' % s)
+        procs.append((ev, jobs, subprocess.Popen([mxh, 'run-programs', '-in', inp, '-out', os.path.join(ck.scratch, 'mnp-out%d.ndjson' % s),
+                                                  '-conc', '8', '-npevents', ev, '-perturb', str(ck.seed * 7 + s + 1)],
+                                                 stdout=subprocess.PIPE, stderr=subprocess.PIPE, stdin=subprocess.DEVNULL)))
+    good = 0
+    for k, (ev, jobs, p) in enumerate(procs):
+        try:
+            _, err = p.communicate(timeout=900)
+        except subprocess.TimeoutExpired:
+            p.kill()
+            raise common.Infra('murex-level named pipe programs timed out')
+        e = err.decode('utf-8', 'replace')
+        if p.returncode != 0:
+            first = [l for l in e.split('\n') if l.startswith('panic:') or l.startswith('fatal error:') or 'SIGSEGV' in l]
+            if first:
+                ck.violation('crash:murex-level:' + first[0], 'concurrent `pipe`/`!pipe` programs killed the interpreter: ' + first[0], {'stderr': e[-2000:], 'programs': [j['src'] for j in jobs[:10]]})
+                continue
+            raise common.Infra('run-programs failed (%d): %s' % (p.returncode, e[-1500:]))
+        ck.cov['evaluations'] += len(jobs)
+        r = common.tlc('NamedPipesTrace', 'NamedPipesTrace.cfg', os.path.join(ck.scratch, 'mnptv%d' % k), workers=1, timeout=1800,
+                       files={'trace.ndjson': open(ev).read()})
+        ck.add_tlc(r)
+        if r.violated:
+            rows = common.read_ndjson(ev)
+            m = re.search(r'"REJECTED_AT", (\d+)', r.out)
+            line = int(m.group(1)) if m else 0
+            evt = rows[line - 1] if 0 < line <= len(rows) else None
+            ck.violation('trace:murex-level:%s:%s' % (r.violated, evt and '%s:%s' % (evt['ev'], evt['ok'])),
+                         'the global registry log of concurrent `pipe`/`!pipe` programs is not a behaviour of NamedPipes.tla (%s at event %s)' % (r.violated, evt),
+                         {'tlc': r.violated, 'rejected_event': evt, 'trace': rows[max(0, line - 40):line + 1]})
+        else:
+            good += len(jobs)
+            if k == 0:
+                ck.sample({'kind': 'murex-level program', 'src': jobs[0]['src'], 'registry_log_prefix': common.read_ndjson(ev)[:12]})
     return good
 
 
